@@ -1,12 +1,938 @@
-//! C19 — (stub: no ops yet)
+//! C19 — label-free quantification (`sage_core::lfq`)
+//!
+//! world W :=  withMob combine scoring(0..3) sum sa(f64) ppm(f32) mobPct(f32) zLo zHi
+//!             [p h:seq…]                                          database peptides (index = PeptideIx)
+//!             [f (pep label q(f32) alignedRt(f32) calcmass(f32) charge file ims(f32))…]   PSM features, in order
+//!             [a (maxRt slope intercept)…]                        alignments (index = file id)
+//!             [s (file scanStart(f32) [k (mass intensity mobility)…])…]   MS1 spectra
+//! result R := [k (pep charge(0 = combined) decoy peakRt score(f64) angle(f64) [files area(f64)…])…] sorted by key | panic
+//!
+//!   lfqmap  ppm mobPct zLo zHi [f feature…]   -> [n (rt massLo massHi mobLo mobHi charge isotope pep file decoy)…] [m minRt…] binSize
+//!   lfqgrid refRt refFile files d0 d1 d2 scoring sum sa(f64) [n (rt isotope file intensity)…]
+//!                                             -> [c cell(f64)…] [d dot…] [d angle…] (0 | 1 peakRt score angle [files area…])
+//!   lfq     [t threads…] binSize W            -> R for each pool size, in order   (binSize 0 = the map as built)
+//!   lfq2    kind [n perm…] binSize W_A W_B    -> R_A R_B   (single-thread pool; kind 0 = noise, 1 = file permutation)
 use super::Info;
-use crate::proto::{Case, Rng, Tier, Toks};
+use crate::proto::{Case, Out, Rng, Tier, Toks};
+use sage_core::database::{IndexedDatabase, PeptideIx};
+use sage_core::lfq::{
+    build_feature_map, FeatureMap, Grid, IntegrationStrategy, LfqSettings, PeakScoringStrategy,
+    PrecursorId, PrecursorRange,
+};
+use sage_core::ml::retention_alignment::Alignment;
+use sage_core::peptide::Peptide;
+use sage_core::scoring::Feature;
+use sage_core::spectrum::{IMPeak, MS1Spectra, Peak, ProcessedSpectrum};
+use std::collections::HashMap;
+use std::sync::{Arc, Mutex, OnceLock};
 
-pub const OPS: &[&str] = &[];
-pub const INFO: Info = Info { rule: "", serial: false };
+pub const OPS: &[&str] = &["lfqmap", "lfqgrid", "lfq", "lfq2"];
+pub const INFO: Info = Info {
+    rule: "synthetic LFQ worlds: 1-6 peptides (random sequences incl. C/M), 1-3 PSMs each mixing confident targets \
+           (q in {0,0.005,0.01}) with decoys and q in {nextafter(0.01),0.05,1}, shuffled; 1-3 files (5 thorough) with identity or \
+           random affine alignments; per peptide 5-25 scans spread over 1.4x the RT window carrying isotope envelopes \
+           (charges zLo..zHi+1, isotopes 0..3, ppm error up to 1.6x tolerance, gaussian elution profile), scans in the decoy \
+           window at +11.06, random noise peaks, optional ion mobility; page size 16384 or rebinned to 1..8 ranges per page; \
+           directed: peaks exactly on / one ulp outside massLo/massHi, scans exactly on / one ulp outside rt +- RT_TOL, \
+           feature rt < 2*RT_TOL (decoy rt clamps to 0), q exactly 0.01, empty charge range, empty inputs, wide ppm (window > 0.1 Da); \
+           streams: pools {1,2,4,16}; file B = 2 x file A; lfq2 noise (B = A + irrelevant peaks/spectra/PSMs) and file permutation; \
+           lfqmap (feature map as built, incl. >16384 ranges in thorough) and lfqgrid (Grid::add_entry/summarize/integrate on \
+           random and boundary contributions). non-trivial = at least one in-window peak and one irrelevant peak or PSM",
+    serial: false,
+};
 
-pub fn gen(_rng: &mut Rng, _tier: Tier, _emit: &mut dyn FnMut(Case)) {}
+// ---------------------------------------------------------------------------------------------
+// world
 
-pub fn exec(_op: &str, _t: &mut Toks) -> Option<String> {
-    None
+#[derive(Clone, Debug)]
+struct Ft {
+    pep: u32,
+    label: i32,
+    q: f32,
+    rt: f32,
+    calcmass: f32,
+    charge: u8,
+    file: usize,
+    ims: f32,
+}
+
+#[derive(Clone, Debug)]
+struct Sp {
+    file: usize,
+    t: f32,
+    peaks: Vec<(f32, f32, f32)>,
+}
+
+#[derive(Clone, Debug)]
+struct World {
+    with_mob: bool,
+    combine: bool,
+    scoring: u8,
+    sum: bool,
+    sa: f64,
+    ppm: f32,
+    mob_pct: f32,
+    z_lo: u8,
+    z_hi: u8,
+    peptides: Vec<Vec<u8>>,
+    feats: Vec<Ft>,
+    aligns: Vec<(f32, f32, f32)>,
+    spectra: Vec<Sp>,
+}
+
+fn put_feat(o: &mut Out, f: &Ft) {
+    o.n(f.pep).n(f.label).f32(f.q).f32(f.rt).f32(f.calcmass).n(f.charge).n(f.file).f32(f.ims);
+}
+
+fn get_feat(t: &mut Toks) -> Option<Ft> {
+    Some(Ft {
+        pep: t.usize()? as u32,
+        label: t.i64()? as i32,
+        q: t.f32()?,
+        rt: t.f32()?,
+        calcmass: t.f32()?,
+        charge: t.usize()? as u8,
+        file: t.usize()?,
+        ims: t.f32()?,
+    })
+}
+
+impl World {
+    fn put(&self, o: &mut Out) {
+        o.b(self.with_mob).b(self.combine).n(self.scoring).b(self.sum).f64(self.sa).f32(self.ppm).f32(self.mob_pct);
+        o.n(self.z_lo).n(self.z_hi);
+        o.n(self.peptides.len());
+        for p in &self.peptides {
+            o.bytes(p);
+        }
+        o.n(self.feats.len());
+        for f in &self.feats {
+            put_feat(o, f);
+        }
+        o.n(self.aligns.len());
+        for a in &self.aligns {
+            o.f32(a.0).f32(a.1).f32(a.2);
+        }
+        o.n(self.spectra.len());
+        for s in &self.spectra {
+            o.n(s.file).f32(s.t).n(s.peaks.len());
+            for p in &s.peaks {
+                o.f32(p.0).f32(p.1).f32(p.2);
+            }
+        }
+    }
+
+    fn get(t: &mut Toks) -> Option<World> {
+        let with_mob = t.bool()?;
+        let combine = t.bool()?;
+        let scoring = t.usize()? as u8;
+        let sum = t.bool()?;
+        let sa = t.f64()?;
+        let ppm = t.f32()?;
+        let mob_pct = t.f32()?;
+        let z_lo = t.usize()? as u8;
+        let z_hi = t.usize()? as u8;
+        let peptides = t.list(|t| t.bytes())?;
+        let feats = t.list(get_feat)?;
+        let aligns = t.list(|t| Some((t.f32()?, t.f32()?, t.f32()?)))?;
+        let spectra = t.list(|t| {
+            let file = t.usize()?;
+            let time = t.f32()?;
+            let peaks = t.list(|t| Some((t.f32()?, t.f32()?, t.f32()?)))?;
+            Some(Sp { file, t: time, peaks })
+        })?;
+        Some(World { with_mob, combine, scoring, sum, sa, ppm, mob_pct, z_lo, z_hi, peptides, feats, aligns, spectra })
+    }
+
+    fn settings(&self) -> LfqSettings {
+        settings(self.scoring, self.sum, self.sa, self.ppm, self.mob_pct, self.combine)
+    }
+}
+
+fn settings(scoring: u8, sum: bool, sa: f64, ppm: f32, mob_pct: f32, combine: bool) -> LfqSettings {
+    LfqSettings {
+        peak_scoring: match scoring {
+            0 => PeakScoringStrategy::RetentionTime,
+            1 => PeakScoringStrategy::SpectralAngle,
+            2 => PeakScoringStrategy::Intensity,
+            _ => PeakScoringStrategy::Hybrid,
+        },
+        integration: if sum { IntegrationStrategy::Sum } else { IntegrationStrategy::Apex },
+        spectral_angle: sa,
+        ppm_tolerance: ppm,
+        mobility_pct_tolerance: mob_pct,
+        combine_charge_states: combine,
+    }
+}
+
+fn features(fs: &[Ft]) -> Vec<Feature> {
+    fs.iter()
+        .map(|f| {
+            let mut x = super::util::blank_feature();
+            x.peptide_idx = PeptideIx(f.pep);
+            x.label = f.label;
+            x.peptide_q = f.q;
+            x.aligned_rt = f.rt;
+            x.calcmass = f.calcmass;
+            x.charge = f.charge;
+            x.file_id = f.file;
+            x.ims = f.ims;
+            x
+        })
+        .collect()
+}
+
+fn pool(n: usize) -> Arc<rayon::ThreadPool> {
+    static POOLS: OnceLock<Mutex<HashMap<usize, Arc<rayon::ThreadPool>>>> = OnceLock::new();
+    let m = POOLS.get_or_init(|| Mutex::new(HashMap::new()));
+    let mut g = m.lock().unwrap_or_else(|e| e.into_inner());
+    g.entry(n)
+        .or_insert_with(|| Arc::new(rayon::ThreadPoolBuilder::new().num_threads(n).build().expect("pool")))
+        .clone()
+}
+
+/// re-bin a feature map to pages of `b` ranges (same procedure as `build_feature_map`, smaller page)
+fn rebin(fm: &mut FeatureMap, b: usize) {
+    fm.ranges.sort_by(|x, y| x.rt.total_cmp(&y.rt));
+    fm.min_rts = fm
+        .ranges
+        .chunks_mut(b)
+        .map(|c| {
+            let m = c[0].rt;
+            c.sort_by(|x, y| x.mass_lo.total_cmp(&y.mass_lo));
+            m
+        })
+        .collect();
+    fm.bin_size = b;
+}
+
+fn put_result(o: &mut Out, rows: &[(u32, u8, bool, usize, f64, f64, Vec<f64>)]) {
+    o.n(rows.len());
+    for r in rows {
+        o.n(r.0).n(r.1).b(r.2).n(r.3).f64(r.4).f64(r.5).n(r.6.len());
+        for a in &r.6 {
+            o.f64(*a);
+        }
+    }
+}
+
+/// the real pipeline: build_feature_map(..).quantify(..) inside a pool of `threads` workers
+fn run(w: &World, bin: usize, threads: usize) -> Vec<(u32, u8, bool, usize, f64, f64, Vec<f64>)> {
+    let db = IndexedDatabase {
+        peptides: w
+            .peptides
+            .iter()
+            .map(|s| Peptide {
+                decoy: false,
+                sequence: Arc::from(s.clone().into_boxed_slice()),
+                modifications: vec![0.0; s.len()],
+                nterm: None,
+                cterm: None,
+                monoisotopic: 0.0,
+                missed_cleavages: 0,
+                semi_enzymatic: false,
+                position: sage_core::enzyme::Position::Internal,
+                proteins: vec![],
+            })
+            .collect(),
+        ..Default::default()
+    };
+    let feats = features(&w.feats);
+    let aligns: Vec<Alignment> = w
+        .aligns
+        .iter()
+        .enumerate()
+        .map(|(i, a)| Alignment { file_id: i, max_rt: a.0, slope: a.1, intercept: a.2 })
+        .collect();
+    let ms1 = if w.with_mob {
+        MS1Spectra::WithMobility(
+            w.spectra
+                .iter()
+                .map(|s| ProcessedSpectrum::<IMPeak> {
+                    level: 1,
+                    file_id: s.file,
+                    scan_start_time: s.t,
+                    peaks: s.peaks.iter().map(|p| IMPeak { mass: p.0, intensity: p.1, mobility: p.2 }).collect(),
+                    ..Default::default()
+                })
+                .collect(),
+        )
+    } else {
+        MS1Spectra::NoMobility(
+            w.spectra
+                .iter()
+                .map(|s| ProcessedSpectrum::<Peak> {
+                    level: 1,
+                    file_id: s.file,
+                    scan_start_time: s.t,
+                    peaks: s.peaks.iter().map(|p| Peak { mass: p.0, intensity: p.1 }).collect(),
+                    ..Default::default()
+                })
+                .collect(),
+        )
+    };
+    let st = w.settings();
+    let out = pool(threads).install(|| {
+        let mut fm = build_feature_map(st, (w.z_lo, w.z_hi), &feats);
+        if bin > 0 && !fm.ranges.is_empty() {
+            rebin(&mut fm, bin);
+        }
+        fm.quantify(&db, &ms1, &aligns)
+    });
+    let mut rows: Vec<_> = out
+        .into_iter()
+        .map(|((id, decoy), (peak, areas))| {
+            let (pep, z) = match id {
+                PrecursorId::Combined(p) => (p.0, 0u8),
+                PrecursorId::Charged((p, z)) => (p.0, z),
+            };
+            (pep, z, decoy, peak.rt, peak.score, peak.spectral_angle, areas)
+        })
+        .collect();
+    rows.sort_by(|a, b| (a.0, a.1, a.2).cmp(&(b.0, b.1, b.2)));
+    rows
+}
+
+pub fn exec(op: &str, t: &mut Toks) -> Option<String> {
+    let mut o = Out::new();
+    match op {
+        "lfqmap" => {
+            let ppm = t.f32()?;
+            let mob = t.f32()?;
+            let z_lo = t.usize()? as u8;
+            let z_hi = t.usize()? as u8;
+            let fs = t.list(get_feat)?;
+            let fm = pool(4).install(|| build_feature_map(settings(3, true, 0.7, ppm, mob, true), (z_lo, z_hi), &features(&fs)));
+            o.n(fm.ranges.len());
+            for r in &fm.ranges {
+                o.f32(r.rt).f32(r.mass_lo).f32(r.mass_hi).f32(r.mobility_lo).f32(r.mobility_hi);
+                o.n(r.charge).n(r.isotope).n(r.peptide.0).n(r.file_id).b(r.decoy);
+            }
+            o.n(fm.min_rts.len());
+            for m in &fm.min_rts {
+                o.f32(*m);
+            }
+            o.n(fm.bin_size);
+        }
+        "lfqgrid" => {
+            let ref_rt = t.f32()?;
+            let ref_file = t.usize()?;
+            let files = t.usize()?;
+            let dist = [t.f32()?, t.f32()?, t.f32()?];
+            let scoring = t.usize()? as u8;
+            let sum = t.bool()?;
+            let sa = t.f64()?;
+            let adds = t.list(|t| Some((t.f32()?, t.usize()?, t.usize()?, t.f32()?)))?;
+            let entry = PrecursorRange {
+                rt: ref_rt,
+                mass_lo: 0.0,
+                mass_hi: 0.0,
+                mobility_lo: 0.0,
+                mobility_hi: 0.0,
+                charge: 2,
+                isotope: 0,
+                peptide: PeptideIx(0),
+                file_id: ref_file,
+                decoy: false,
+            };
+            // RT_TOL and GRID_SIZE are private constants of lfq.rs: the literal values are passed as `quantify` passes them
+            let mut g = Grid::new(&entry, 0.0050, dist, files, 100);
+            for a in &adds {
+                g.add_entry(a.0, a.1, a.2, a.3);
+            }
+            o.n(g.matrix.data.len());
+            for x in &g.matrix.data {
+                o.f64(*x);
+            }
+            let mut tr = g.summarize_traces();
+            o.n(tr.dot_product.data.len());
+            for x in &tr.dot_product.data {
+                o.f64(*x);
+            }
+            o.n(tr.spectral_angle.data.len());
+            for x in &tr.spectral_angle.data {
+                o.f64(*x);
+            }
+            match tr.integrate(&settings(scoring, sum, sa, 5.0, 1.0, true)) {
+                None => {
+                    o.n(0);
+                }
+                Some((p, areas)) => {
+                    o.n(1).n(p.rt).f64(p.score).f64(p.spectral_angle).n(areas.len());
+                    for a in &areas {
+                        o.f64(*a);
+                    }
+                }
+            }
+        }
+        "lfq" => {
+            let threads = t.list(|t| t.usize())?;
+            let bin = t.usize()?;
+            let w = World::get(t)?;
+            for n in threads {
+                let rows = run(&w, bin, n.max(1));
+                put_result(&mut o, &rows);
+            }
+        }
+        "lfq2" => {
+            let _kind = t.usize()?;
+            let _perm = t.list(|t| t.usize())?;
+            let bin = t.usize()?;
+            let a = World::get(t)?;
+            let b = World::get(t)?;
+            put_result(&mut o, &run(&a, bin, 1));
+            put_result(&mut o, &run(&b, bin, 1));
+        }
+        _ => return None,
+    }
+    if !t.done() {
+        return None;
+    }
+    Some(o.finish())
+}
+
+// ---------------------------------------------------------------------------------------------
+// generator
+
+const AAS: &[u8] = b"ACDEFGHIKLMNPQRSTVWY";
+const NEUTRON: f32 = 1.00335;
+const RT_TOL: f32 = 0.005;
+
+fn up(x: f32) -> f32 {
+    if x > 0.0 { f32::from_bits(x.to_bits() + 1) } else { x }
+}
+fn down(x: f32) -> f32 {
+    if x > 0.0 { f32::from_bits(x.to_bits() - 1) } else { x }
+}
+
+fn ppm_bounds(center: f32, ppm: f32) -> (f32, f32) {
+    (center + center * (-ppm) / 1_000_000.0, center + center * ppm / 1_000_000.0)
+}
+
+fn iso_dist(seq: &[u8]) -> [f32; 3] {
+    let mut c = 0u16;
+    let mut s = 0u16;
+    for r in seq {
+        let k = sage_core::mass::composition(*r);
+        c += k.carbon;
+        s += k.sulfur;
+    }
+    sage_core::isotopes::peptide_isotopes(c, s)
+}
+
+struct Cfg {
+    max_pep: usize,
+    max_files: usize,
+    scans: (usize, usize),
+}
+
+/// a random world; returns the world and whether it has in-window signal by construction
+fn world(rng: &mut Rng, cfg: &Cfg, force_files: Option<usize>, identity: bool) -> World {
+    let n_files = force_files.unwrap_or(1 + rng.below(cfg.max_files));
+    let with_mob = rng.chance(1, 3);
+    let ppm = *rng.pick(&[5.0f32, 5.0, 10.0, 20.0, 20.0, 50.0]);
+    let mob_pct = *rng.pick(&[1.0f32, 5.0]);
+    let (z_lo, z_hi) = *rng.pick(&[(2u8, 3u8), (2, 4), (1, 2), (2, 2), (2, 3), (1, 4)]);
+    let aligns: Vec<(f32, f32, f32)> = (0..n_files)
+        .map(|_| {
+            if identity || rng.chance(1, 3) {
+                (1.0, 1.0, 0.0)
+            } else {
+                (
+                    30.0 + 90.0 * rng.unit() as f32,
+                    0.9 + 0.2 * rng.unit() as f32,
+                    -0.02 + 0.04 * rng.unit() as f32,
+                )
+            }
+        })
+        .collect();
+    let n_pep = 1 + rng.below(cfg.max_pep);
+    let mut peptides = Vec::new();
+    let mut feats = Vec::new();
+    let mut spectra: Vec<Sp> = Vec::new();
+    for p in 0..n_pep {
+        let len = 6 + rng.below(12);
+        let seq: Vec<u8> = (0..len).map(|_| *rng.pick(AAS)).collect();
+        let dist = iso_dist(&seq);
+        peptides.push(seq);
+        let calcmass = if rng.chance(1, 10) { 4000.0 + 2000.0 * rng.unit() as f32 } else { 600.0 + 2900.0 * rng.unit() as f32 };
+        let n_psm = 1 + rng.below(3);
+        let mut psms = Vec::new();
+        for _ in 0..n_psm {
+            let confident = rng.chance(2, 3);
+            let (label, q) = if confident {
+                (1, *rng.pick(&[0.0f32, 0.005, 0.01]))
+            } else if rng.chance(1, 2) {
+                (-1, *rng.pick(&[0.0f32, 0.005, 0.5]))
+            } else {
+                (1, *rng.pick(&[up(0.01f32), 0.05, 1.0]))
+            };
+            let rt = if rng.chance(1, 12) { 0.012 * rng.unit() as f32 } else { 0.02 + 0.96 * rng.unit() as f32 };
+            psms.push(Ft {
+                pep: p as u32,
+                label,
+                q,
+                rt,
+                calcmass: if rng.chance(1, 8) { calcmass + 0.5 } else { calcmass },
+                charge: 2 + rng.below(2) as u8,
+                file: rng.below(n_files),
+                ims: 0.6 + 0.8 * rng.unit() as f32,
+            });
+        }
+        // signal around every PSM of the peptide (so a wrong winner of first-wins changes the result)
+        for f in &psms {
+            for file in 0..n_files {
+                if rng.chance(1, 6) {
+                    continue;
+                }
+                let a = aligns[file];
+                let scale = 1.0e4 * (1.0 + 9.0 * rng.unit() as f32);
+                let n_scan = cfg.scans.0 + rng.below(cfg.scans.1 - cfg.scans.0 + 1);
+                let apex = f.rt + 0.002 * (rng.unit() as f32 - 0.5);
+                for _ in 0..n_scan {
+                    let decoy_win = rng.chance(1, 6);
+                    let centre = if decoy_win { (f.rt - 2.0 * RT_TOL).max(0.0) } else { f.rt };
+                    let rt = centre + 0.014 * (rng.unit() as f32 - 0.5);
+                    let t = ((rt - a.2) / a.1) * a.0;
+                    let profile = (-0.5 * ((rt - apex) / 0.0012).powi(2)).exp();
+                    let mut peaks = Vec::new();
+                    for z in z_lo..=z_hi.saturating_add(1) {
+                        if z == 0 || rng.chance(1, 4) {
+                            continue;
+                        }
+                        for iso in 0..4usize {
+                            let mz = (f.calcmass + iso as f32 * NEUTRON) / z as f32 + if decoy_win { 11.06 } else { 0.0 };
+                            let err = ppm * 1.6 * (2.0 * rng.unit() as f32 - 1.0);
+                            let inten = if iso < 3 { dist[iso] } else { 0.05 }
+                                * scale
+                                * (0.05 + profile)
+                                * (0.8 + 0.4 * rng.unit() as f32)
+                                / z as f32;
+                            let mob = f.ims * (1.0 + mob_pct * 1.5 * (2.0 * rng.unit() as f32 - 1.0) / 100.0);
+                            peaks.push((mz + mz * err / 1.0e6, inten, mob));
+                        }
+                    }
+                    for _ in 0..rng.below(4) {
+                        peaks.push((300.0 + 1700.0 * rng.unit() as f32, 1.0e3 * rng.unit() as f32, 0.6 + 0.8 * rng.unit() as f32));
+                    }
+                    peaks.sort_by(|x, y| x.0.total_cmp(&y.0));
+                    spectra.push(Sp { file, t, peaks });
+                }
+            }
+        }
+        feats.extend(psms);
+    }
+    rng.shuffle(&mut feats);
+    if rng.chance(3, 4) {
+        spectra.sort_by(|x, y| (x.file, x.t.to_bits()).cmp(&(y.file, y.t.to_bits())));
+    } else {
+        rng.shuffle(&mut spectra);
+    }
+    World {
+        with_mob,
+        combine: rng.chance(1, 2),
+        scoring: rng.below(4) as u8,
+        sum: rng.chance(2, 3),
+        sa: *rng.pick(&[0.0f64, 0.3, 0.7, 0.7, 0.9]),
+        ppm,
+        mob_pct,
+        z_lo,
+        z_hi,
+        peptides,
+        feats,
+        aligns,
+        spectra,
+    }
+}
+
+fn pick_bin(rng: &mut Rng) -> usize {
+    if rng.chance(1, 2) { 0 } else { *rng.pick(&[1usize, 2, 3, 5, 8, 13]) }
+}
+
+fn req_lfq(threads: &[usize], bin: usize, w: &World) -> String {
+    let mut o = Out::new();
+    o.raw("lfq").n(threads.len());
+    for t in threads {
+        o.n(*t);
+    }
+    o.n(bin);
+    w.put(&mut o);
+    o.finish()
+}
+
+fn req_lfq2(kind: usize, perm: &[usize], bin: usize, a: &World, b: &World) -> String {
+    let mut o = Out::new();
+    o.raw("lfq2").n(kind).n(perm.len());
+    for p in perm {
+        o.n(*p);
+    }
+    o.n(bin);
+    a.put(&mut o);
+    b.put(&mut o);
+    o.finish()
+}
+
+fn req_map(ppm: f32, mob: f32, z_lo: u8, z_hi: u8, fs: &[Ft]) -> String {
+    let mut o = Out::new();
+    o.raw("lfqmap").f32(ppm).f32(mob).n(z_lo).n(z_hi).n(fs.len());
+    for f in fs {
+        put_feat(&mut o, f);
+    }
+    o.finish()
+}
+
+/// the confident winner per peptide, as `build_feature_map` picks it
+fn winners(w: &World) -> Vec<Ft> {
+    let mut seen = std::collections::HashSet::new();
+    let mut out = Vec::new();
+    for f in &w.feats {
+        if f.q <= 0.01 && f.label == 1 && seen.insert(f.pep) {
+            out.push(f.clone());
+        }
+    }
+    out
+}
+
+/// B = A plus signal that the property says is irrelevant
+fn add_noise(rng: &mut Rng, a: &World) -> World {
+    let mut b = a.clone();
+    let win = winners(a);
+    // PSMs: decoys / q > 0.01, for known and for new peptides, at random positions (also in front of the winner)
+    let extra = 1 + rng.below(4);
+    for _ in 0..extra {
+        let new_pep = rng.chance(1, 3) || a.peptides.is_empty();
+        let pep = if new_pep {
+            b.peptides.push((0..8).map(|_| *rng.pick(AAS)).collect());
+            (b.peptides.len() - 1) as u32
+        } else {
+            rng.below(a.peptides.len()) as u32
+        };
+        let (label, q) = if rng.chance(1, 2) { (-1, *rng.pick(&[0.0f32, 0.01])) } else { (1, *rng.pick(&[up(0.01f32), 0.02, 1.0])) };
+        let f = Ft {
+            pep,
+            label,
+            q,
+            rt: rng.unit() as f32,
+            calcmass: 500.0 + 3000.0 * rng.unit() as f32,
+            charge: 2,
+            file: rng.below(a.aligns.len().max(1)),
+            ims: 1.0,
+        };
+        let at = if rng.chance(1, 2) { 0 } else { rng.below(b.feats.len() + 1) };
+        b.feats.insert(at, f);
+    }
+    // peaks one ulp (or a few ppm) outside a real window, in a scan inside the RT window; and in-window masses in scans
+    // just outside the RT window (identity alignment only: the scan time is then the aligned rt exactly)
+    for f in &win {
+        for z in a.z_lo..=a.z_hi {
+            if z == 0 {
+                continue;
+            }
+            for iso in 0..3usize {
+                let mz = (f.calcmass + iso as f32 * NEUTRON) / z as f32;
+                let (lo, hi) = ppm_bounds(mz, a.ppm);
+                if !b.spectra.is_empty() && rng.chance(1, 2) {
+                    let k = rng.below(b.spectra.len());
+                    let m = *rng.pick(&[up(hi), down(lo), hi * (1.0 + 3.0e-6), lo * (1.0 - 3.0e-6)]);
+                    let at = rng.below(b.spectra[k].peaks.len() + 1);
+                    b.spectra[k].peaks.insert(at, (m, 5.0e4, f.ims));
+                }
+                if rng.chance(1, 3) {
+                    for file in 0..a.aligns.len() {
+                        if a.aligns[file] == (1.0, 1.0, 0.0) {
+                            let t = *rng.pick(&[up(up(f.rt + RT_TOL)), f.rt + 1.5 * RT_TOL]);
+                            if a.with_mob || t - f.rt > RT_TOL {
+                                b.spectra.push(Sp { file, t, peaks: vec![(mz, 7.0e4, f.ims)] });
+                            }
+                        }
+                    }
+                }
+                if a.with_mob && !b.spectra.is_empty() && rng.chance(1, 3) {
+                    // right mass, wrong mobility
+                    let k = rng.below(b.spectra.len());
+                    b.spectra[k].peaks.push((mz, 6.0e4, f.ims * (1.0 + 3.0 * a.mob_pct / 100.0)));
+                }
+            }
+        }
+    }
+    // far-away peaks and spectra
+    for _ in 0..rng.below(4) {
+        if !b.spectra.is_empty() {
+            let k = rng.below(b.spectra.len());
+            b.spectra[k].peaks.push((5000.0 + 1000.0 * rng.unit() as f32, 1.0e5, 1.0));
+        }
+    }
+    for _ in 0..rng.below(3) {
+        if !a.aligns.is_empty() {
+            let file = rng.below(a.aligns.len());
+            let at = rng.below(b.spectra.len() + 1);
+            b.spectra.insert(at, Sp { file, t: 1.0e6, peaks: vec![(700.0, 1.0e5, 1.0), (1200.0, 3.0e4, 1.0)] });
+        }
+    }
+    b
+}
+
+fn permute_files(a: &World, perm: &[usize]) -> World {
+    // file i of A becomes file perm[i] of B
+    let mut b = a.clone();
+    for f in &mut b.feats {
+        f.file = perm[f.file];
+    }
+    for s in &mut b.spectra {
+        s.file = perm[s.file];
+    }
+    for (i, al) in a.aligns.iter().enumerate() {
+        b.aligns[perm[i]] = *al;
+    }
+    b
+}
+
+fn directed(emit: &mut dyn FnMut(Case)) {
+    // one peptide, identity alignment, everything on a boundary
+    for &(ppm, combine, z) in &[(5.0f32, true, 2u8), (20.0, false, 2), (10.0, true, 3)] {
+        for &rt0 in &[0.5f32, 0.25, 0.004, 0.01, 0.0] {
+            let calc = 1500.75f32;
+            let seq = b"PEPTIDECMK".to_vec();
+            let feat = Ft { pep: 0, label: 1, q: 0.01, rt: rt0, calcmass: calc, charge: z, file: 0, ims: 1.0 };
+            let mut spectra = Vec::new();
+            let scan_rts = [
+                rt0,
+                rt0 + RT_TOL,
+                up(rt0 + RT_TOL),
+                rt0 - RT_TOL,
+                down(rt0 - RT_TOL),
+                rt0 + 0.5 * RT_TOL,
+                rt0 - 0.5 * RT_TOL,
+                rt0 + 0.001,
+                rt0 + 0.0011,
+                rt0 + 0.0012,
+                rt0 - 0.0009,
+                rt0 - 0.001,
+                (rt0 - 2.0 * RT_TOL).max(0.0),
+                (rt0 - 2.0 * RT_TOL).max(0.0) + RT_TOL,
+            ];
+            for (k, &t) in scan_rts.iter().enumerate() {
+                if t < 0.0 {
+                    continue;
+                }
+                let mut peaks = Vec::new();
+                for iso in 0..3usize {
+                    let mz = (calc + iso as f32 * NEUTRON) / z as f32;
+                    let (lo, hi) = ppm_bounds(mz, ppm);
+                    let w = [1.0f32, 0.8, 0.4][iso] * (1.0 + k as f32);
+                    for (j, m) in [lo, hi, down(lo), up(hi), mz].iter().enumerate() {
+                        peaks.push((*m, 1000.0 * w * (1.0 + j as f32), 1.0));
+                    }
+                    let (lo2, hi2) = ppm_bounds(mz + 11.06, ppm);
+                    peaks.push((lo2, 500.0 * w, 1.0));
+                    peaks.push((up(hi2), 500.0 * w, 1.0));
+                }
+                spectra.push(Sp { file: 0, t, peaks });
+            }
+            for &sa in &[0.0f64, 0.7] {
+                for &scoring in &[0u8, 3] {
+                    let w = World {
+                        with_mob: false,
+                        combine,
+                        scoring,
+                        sum: true,
+                        sa,
+                        ppm,
+                        mob_pct: 1.0,
+                        z_lo: z,
+                        z_hi: z,
+                        peptides: vec![seq.clone()],
+                        feats: vec![feat.clone()],
+                        aligns: vec![(1.0, 1.0, 0.0)],
+                        spectra: spectra.clone(),
+                    };
+                    emit(Case::new(req_lfq(&[1], 0, &w)).tag("directed-boundary"));
+                    emit(Case::new(req_lfq(&[1], 2, &w)).tag("directed-boundary").tag("rebinned"));
+                }
+            }
+        }
+    }
+    // degenerate worlds
+    let empty = World {
+        with_mob: false,
+        combine: true,
+        scoring: 3,
+        sum: true,
+        sa: 0.7,
+        ppm: 5.0,
+        mob_pct: 1.0,
+        z_lo: 2,
+        z_hi: 3,
+        peptides: vec![],
+        feats: vec![],
+        aligns: vec![],
+        spectra: vec![],
+    };
+    emit(Case::new(req_lfq(&[1, 2], 0, &empty)).tag("empty").nontrivial(false));
+    let mut e2 = empty.clone();
+    e2.peptides = vec![b"PEPTIDEK".to_vec()];
+    e2.feats = vec![Ft { pep: 0, label: 1, q: 0.0, rt: 0.5, calcmass: 1000.0, charge: 2, file: 0, ims: 1.0 }];
+    e2.aligns = vec![(1.0, 1.0, 0.0)];
+    emit(Case::new(req_lfq(&[1], 0, &e2)).tag("no-spectra").nontrivial(false));
+    let mut e3 = e2.clone();
+    e3.z_lo = 3;
+    e3.z_hi = 2;
+    e3.spectra = vec![Sp { file: 0, t: 0.5, peaks: vec![(500.0, 1.0e4, 1.0)] }];
+    emit(Case::new(req_lfq(&[1], 0, &e3)).tag("empty-charge-range").nontrivial(false));
+    // a spectrum of a file without alignment: the code panics
+    let mut e4 = e2.clone();
+    e4.spectra = vec![Sp { file: 1, t: 0.5, peaks: vec![] }];
+    emit(Case::new(req_lfq(&[1], 0, &e4)).tag("bad-file-index").nontrivial(false));
+    // reference file out of range: panics only when the grid is created
+    let mut e5 = e2.clone();
+    e5.feats[0].file = 3;
+    e5.spectra = vec![Sp { file: 0, t: 0.5, peaks: vec![(500.0, 1.0e4, 1.0)] }];
+    emit(Case::new(req_lfq(&[1], 0, &e5)).tag("bad-reference-file"));
+    let mut e6 = e5.clone();
+    e6.spectra = vec![Sp { file: 0, t: 0.9, peaks: vec![(500.0, 1.0e4, 1.0)] }];
+    emit(Case::new(req_lfq(&[1], 0, &e6)).tag("bad-reference-file-unused").nontrivial(false));
+}
+
+fn gen_grid(rng: &mut Rng, n: usize, emit: &mut dyn FnMut(Case)) {
+    for i in 0..n {
+        let files = 1 + rng.below(3);
+        // binade-crossing reference times: rt_min = fl(ref - tol) and ref have different ulps there, so a scan one ulp
+        // below rt_min can still pass the lookup's window test (`ref <= fl(rt + tol)`)
+        let edge = rng.chance(1, 3);
+        let ref_rt = if edge {
+            *rng.pick(&[0.5f32, 0.25, 0.125, 0.0625, 0.03125]) * (1.0 + 0.0099 * rng.unit() as f32)
+        } else if rng.chance(1, 8) {
+            0.0
+        } else {
+            rng.unit() as f32
+        };
+        let seq: Vec<u8> = (0..(6 + rng.below(14))).map(|_| *rng.pick(AAS)).collect();
+        let dist = iso_dist(&seq);
+        let n_add = if i == 0 { 0 } else { 1 + rng.below(60) };
+        let lo = ref_rt - RT_TOL;
+        let apex = ref_rt + 0.004 * (rng.unit() as f32 - 0.5);
+        let exact = rng.chance(1, 4);
+        let strict = rng.chance(4, 5);
+        let mut o = Out::new();
+        o.raw("lfqgrid").f32(ref_rt).n(rng.below(files)).n(files).f32(dist[0]).f32(dist[1]).f32(dist[2]);
+        o.n(rng.below(4)).b(rng.chance(2, 3)).f64(*rng.pick(&[0.0f64, 0.5, 0.7, 0.9]));
+        o.n(n_add);
+        for _ in 0..n_add {
+            let below = [down(lo), down(down(lo)), down(down(down(lo)))];
+            let passing: Vec<f32> = below.iter().copied().filter(|r| ref_rt <= r + RT_TOL && ref_rt >= r - RT_TOL).collect();
+            let rt = match rng.below(10) {
+                0 if edge && !passing.is_empty() => *rng.pick(&passing),
+                5 if edge && !passing.is_empty() => *rng.pick(&passing),
+                0 => lo,
+                1 => ref_rt + RT_TOL,
+                2 => up(ref_rt + RT_TOL),
+                3 => down(lo),
+                4 => lo + (rng.below(101) as f32) * (RT_TOL * 2.0 / 100.0),
+                _ => lo + 2.0 * RT_TOL * rng.unit() as f32,
+            };
+            // most cases keep to what `quantify` can feed a grid (the lookup's window test, in f32)
+            let rt = if strict && !(ref_rt <= rt + RT_TOL && ref_rt >= rt - RT_TOL) { lo } else { rt };
+            let iso = rng.below(3);
+            let profile = (-0.5 * ((rt - apex) / 0.001).powi(2)).exp();
+            let inten = if exact { dist[iso] * 1.0e4 * profile } else { dist[iso] * 1.0e4 * (0.02 + profile) * (0.7 + 0.6 * rng.unit() as f32) };
+            o.f32(rt).n(iso).n(rng.below(files)).f32(inten);
+        }
+        emit(Case::new(o.finish()).tag("grid").tag_if(exact, "grid-exact-envelope").tag_if(edge, "grid-binade-edge").nontrivial(n_add > 0));
+    }
+}
+
+pub fn gen(rng: &mut Rng, tier: Tier, emit: &mut dyn FnMut(Case)) {
+    let quick = tier == Tier::Quick;
+    let cfg = if quick {
+        Cfg { max_pep: 4, max_files: 3, scans: (5, 14) }
+    } else {
+        Cfg { max_pep: 6, max_files: 5, scans: (5, 25) }
+    };
+    directed(emit);
+    gen_grid(rng, if quick { 60 } else { 4000 }, emit);
+
+    // feature map as built
+    let n_map = if quick { 40 } else { 1500 };
+    for _ in 0..n_map {
+        let w = world(rng, &cfg, None, false);
+        emit(Case::new(req_map(w.ppm, w.mob_pct, w.z_lo, w.z_hi, &w.feats)).tag("map").nontrivial(!winners(&w).is_empty()));
+    }
+    if !quick {
+        // more than one real page: 1000 confident peptides x charges 2..4 x 3 isotopes x 2 = 18000 ranges, many rt ties
+        let fs: Vec<Ft> = (0..1000u32)
+            .map(|p| Ft {
+                pep: p,
+                label: 1,
+                q: 0.0,
+                rt: (rng.below(400) as f32) / 400.0,
+                calcmass: 700.0 + 3000.0 * rng.unit() as f32,
+                charge: 2,
+                file: 0,
+                ims: 1.0,
+            })
+            .collect();
+        emit(Case::new(req_map(10.0, 1.0, 2, 4, &fs)).tag("map").tag("map-multipage"));
+    }
+
+    // full pipeline, pools
+    let n_full = if quick { 60 } else { 4000 };
+    for i in 0..n_full {
+        let w = world(rng, &cfg, None, false);
+        let threads: Vec<usize> = if i % 3 == 0 { vec![1, 2, 4, 16] } else { vec![1] };
+        let bin = pick_bin(rng);
+        let nt = !winners(&w).is_empty() && !w.spectra.is_empty();
+        emit(Case::new(req_lfq(&threads, bin, &w))
+            .tag("full")
+            .tag_if(threads.len() > 1, "pools-1-2-4-16")
+            .tag_if(bin > 0, "rebinned")
+            .tag_if(w.with_mob, "mobility")
+            .tag_if(w.ppm > 20.0, "wide-ppm")
+            .nontrivial(nt));
+    }
+    // doubling: file 1 = file 0 with doubled intensities
+    let n_dbl = if quick { 25 } else { 1500 };
+    for _ in 0..n_dbl {
+        let mut w = world(rng, &cfg, Some(1), false);
+        let base = w.spectra.clone();
+        w.aligns.push(w.aligns[0]);
+        for s in &base {
+            w.spectra.push(Sp { file: 1, t: s.t, peaks: s.peaks.iter().map(|p| (p.0, p.1 * 2.0, p.2)).collect() });
+        }
+        if rng.chance(1, 2) {
+            // interleave the two files
+            let n = base.len();
+            let mut v = Vec::new();
+            for k in 0..n {
+                v.push(w.spectra[k].clone());
+                v.push(w.spectra[n + k].clone());
+            }
+            w.spectra = v;
+        }
+        if rng.chance(1, 2) {
+            for f in &mut w.feats {
+                f.file = rng.below(2);
+            }
+        }
+        emit(Case::new(req_lfq(&[1], pick_bin(rng), &w)).tag("doubling").nontrivial(!winners(&w).is_empty()));
+    }
+    // noise
+    let n_noise = if quick { 40 } else { 2500 };
+    for i in 0..n_noise {
+        let a = world(rng, &cfg, None, i % 2 == 0);
+        let b = add_noise(rng, &a);
+        emit(Case::new(req_lfq2(0, &[], pick_bin(rng), &a, &b)).tag("noise").nontrivial(!winners(&a).is_empty() && !a.spectra.is_empty()));
+    }
+    // file permutation
+    let n_perm = if quick { 25 } else { 1500 };
+    for _ in 0..n_perm {
+        let nf = 2 + rng.below(cfg.max_files - 1);
+        let a = world(rng, &cfg, Some(nf), false);
+        let mut perm: Vec<usize> = (0..nf).collect();
+        rng.shuffle(&mut perm);
+        if perm.iter().enumerate().all(|(i, p)| i == *p) {
+            perm.swap(0, 1);
+        }
+        let b = permute_files(&a, &perm);
+        emit(Case::new(req_lfq2(1, &perm, pick_bin(rng), &a, &b)).tag("file-permutation").nontrivial(!winners(&a).is_empty()));
+    }
 }
